@@ -435,6 +435,7 @@ class C03(Check):
             _reject(ctx, k, "cp_to_tensor(tuple)", kind, lambda: M.cp_to_tensor(xb), lambda o: o, bad=xb)
             _reject(ctx, k, "cp_to_unfolded(tuple)", kind, lambda: M.cp_to_unfolded(xb, 0), lambda o: o, bad=xb)
             _reject(ctx, k, "cp_norm(tuple)", kind, lambda: M.cp_norm(xb), lambda o: o, bad=xb)
+            _reject(ctx, k, "cp_to_vec(tuple)", kind, lambda: M.cp_to_vec(xb), lambda o: o, bad=xb)
         self._finish(ctx, case, "cp", dense, k)
 
     # ----------------------------------------------------------------------------- Tucker
@@ -709,6 +710,10 @@ class C03(Check):
             _reject(ctx, k, "_validate_parafac2_tensor", kind, lambda: M._validate_parafac2_tensor(xb), lambda o: M.parafac2_to_tensor(xb), strict, bad=xb)
             _reject(ctx, k, "parafac2_to_tensor(tuple)", kind, lambda: M.parafac2_to_tensor(xb), lambda o: o, strict, bad=xb)
             _reject(ctx, k, "parafac2_to_slices(tuple)", kind, lambda: M.parafac2_to_slices(xb), lambda o: o[0], strict, bad=xb)
+            # the other conversions of a plain tuple validate as well (every one is a way of "silently reconstructing")
+            _reject(ctx, k, "parafac2_to_slice(tuple)", kind, lambda: M.parafac2_to_slice(xb, 0), lambda o: o, strict, bad=xb)
+            _reject(ctx, k, "parafac2_to_unfolded(tuple)", kind, lambda: M.parafac2_to_unfolded(xb, 0), lambda o: o, strict, bad=xb)
+            _reject(ctx, k, "parafac2_to_vec(tuple)", kind, lambda: M.parafac2_to_vec(xb), lambda o: o, strict, bad=xb)
         self._finish(ctx, case, "pf2", dense, k)
 
 
